@@ -8,22 +8,23 @@ ROOT = os.path.dirname(os.path.dirname(os.path.abspath(__file__)))
 REPO = os.environ.get("QBICE_REPO", "/repo")
 
 
-def run_driver(name, args, timeout=1500):
-    """build + run one bin of the replay crate against the real crates"""
-    cdir = os.path.join(ROOT, "replay")
+def run_driver(name, args, timeout=3600, crate="replay", release=True):
+    """build + run one bin of a replay crate against the real crates from /repo"""
+    import shutil
+    cdir = os.path.join(ROOT, crate)
     env = dict(os.environ)
     env["CARGO_NET_OFFLINE"] = "true"
-    env["CARGO_TARGET_DIR"] = os.path.join(ROOT, "out", "target-replay")
-    lock = os.path.join(cdir, "Cargo.lock")
-    p = subprocess.run(["cargo", "run", "--offline", "--quiet", "--release", "--bin", name, "--"] + list(args), cwd=cdir, env=env,
-                       stdout=subprocess.PIPE, stderr=subprocess.PIPE, text=True, timeout=timeout)
+    env["CARGO_TARGET_DIR"] = os.path.join(ROOT, "out", "target-" + crate.replace("_", "-"))
+    shutil.copyfile(os.path.join(REPO, "Cargo.lock"), os.path.join(cdir, "Cargo.lock"))
+    cmd = ["cargo", "run", "--offline", "--quiet"] + (["--release"] if release else []) + ["--bin", name, "--"] + list(args)
+    p = subprocess.run(cmd, cwd=cdir, env=env, stdout=subprocess.PIPE, stderr=subprocess.PIPE, text=True, timeout=timeout)
     return p
 
 
-def generic(bin_name):
+def generic(bin_name, crate="replay", release=True):
     def f(prop, violations, tier, seed):
         try:
-            p = run_driver(bin_name, ["--search", "--seed", str(seed)])
+            p = run_driver(bin_name, ["--search", "--seed", str(seed)], crate=crate, release=release)
         except Exception as e:
             return {"found": False, "error": repr(e)}
         last = None
@@ -42,7 +43,7 @@ def generic(bin_name):
 
 
 c12 = generic("replay_c12")
-c11 = generic("replay_c11")
+c11 = generic("replay_c11", crate="replay_db", release=False)
 c10 = generic("replay_c10")
 c09 = generic("replay_c09")
 c13 = generic("replay_c13")
